@@ -530,6 +530,9 @@ MANIFEST = {
             "the step).",
     "note": "trusted: Lean kernel, harness/props/c05.py, harness/gen/buildsim*.py, tools/consts/c05.py, bash, process-kill "
             "semantics (completed file operations persist; machine crashes and the state-file commit are C10); the log-level "
-            "statement no_false_uptodate is kept as goal (its two halves are proved)",
+            "statement no_false_uptodate is proved as no_false_uptodate_partial (after a cut inside the script of a workspace "
+            "the next successful invocation of any project reaching a step there starts that script again) under the added "
+            "hypothesis that the second invocation requests that step (no --no-deps; --checkout-only only for a checkout step); for arbitrary flags "
+            "the statement is refuted in Lean (no_false_uptodate_refuted: --checkout-only legitimately leaves a build step alone)",
     "technique": "Lean 4 proof over hand-written model + differential correspondence + cut-point enumeration on small projects",
 }
